@@ -1,1 +1,18 @@
 //! shared helpers for the chk-expr checks
+//!
+//! * [`refexpr`] — the check's own expression AST, plain-Rust values and an
+//!   INDEPENDENT row-at-a-time reference evaluator (SQL three-valued logic);
+//!   imports nothing from arrow / DataFusion.
+//! * [`exprgen`] — exhaustive, typed expression-tree generator (DESIGN §4.2 C04).
+//! * [`table`] — the exhaustive row table (all rows over the referenced
+//!   columns' small domains) as plain rows and as an arrow `RecordBatch`.
+//! * [`dfx`] — translation of the AST into DataFusion `Expr`s, the real type
+//!   coercion, physical planning and evaluation with results read back into
+//!   plain values.
+//! * [`guar`] — column guarantees (`NullableInterval`) with their own,
+//!   independent satisfaction test.
+pub mod dfx;
+pub mod exprgen;
+pub mod guar;
+pub mod refexpr;
+pub mod table;
